@@ -15,19 +15,19 @@ Ltac Zify.zify_post_hook ::= Z.div_mod_to_equations.
 Lemma wrap_in_range t z : in_range t (wrap t z) = true.
 Proof.
   unfold in_range, wrap, lo, hi.
-  destruct t; cbv [signed bits]; norm_pow; lia.
+  destruct t; cbv [signed bits modulus half]; norm_pow; lia.
 Qed.
 
 Lemma wrap_id t z : in_range t z = true -> wrap t z = z.
 Proof.
   unfold in_range, wrap, lo, hi.
-  destruct t; cbv [signed bits]; norm_pow; lia.
+  destruct t; cbv [signed bits modulus half]; norm_pow; lia.
 Qed.
 
 Lemma cvt_id t z : in_range t z = true -> cvt t (Zn z) = z.
 Proof.
   unfold cvt, cvt_z, cvt32, cvt64, in_range, wrap, lo, hi.
-  destruct t; cbv [signed bits]; norm_pow; intro H.
+  destruct t; cbv [signed bits modulus half]; norm_pow; intro H.
   all: repeat match goal with |- context [if ?c then _ else _] => destruct c eqn:? end; norm_pow; try lia.
 Qed.
 
@@ -142,7 +142,7 @@ Proof.
   intros Ht Ha Hd H64. unfold Value_incDec.
   destruct (d <? 0) eqn:E.
   - assert (ineg I64 d = - d) as ->.
-    { unfold ineg. apply wrap_id. revert Hd. clear - Ht E. typed_cases t; unfold in_range, lo, hi; cbv [signed bits]; norm_pow; lia. }
+    { unfold ineg. apply wrap_id. revert Hd. clear - Ht E. typed_cases t; unfold in_range, lo, hi; cbv [signed bits modulus half]; norm_pow; lia. }
     replace (fn_newUntypedInt (- d)) with (Untyped (- d)) by reflexivity.
     assert (Hd' : in_range t (- d) = true) by (replace (- d) with (Z.abs d) by lia; exact Hd).
     rewrite (const_r_sub t a (- d) Ht Ha Hd'). rewrite (op_sub t a (- d) Ht Ha Hd'). reflexivity.
@@ -200,7 +200,7 @@ Lemma convert_int t t' a : typed t = true -> typed t' = true -> in_range t a = t
 Proof.
   intros Ht Ht' Ha.
   assert (H64 : in_range I64 a = true).
-  { revert Ha. typed_cases t; unfold in_range, lo, hi; cbv [signed bits]; norm_pow; lia. }
+  { revert Ha. typed_cases t; unfold in_range, lo, hi; cbv [signed bits modulus half]; norm_pow; lia. }
   pose proof (cvt_id I64 a H64) as C64. pose proof (cvt_u32_wrap a H64) as C32.
   unfold Value_convert.
   typed_cases t; typed_cases t'; cbv [V tag_of vt vnum vval];
@@ -223,7 +223,7 @@ Lemma convert_float_small t f z : (t = I8 \/ t = U8) -> Ztrunc f = Some z -> in_
 Proof.
   intros Ht Hz Hr.
   assert (H64 : in_range I64 z = true).
-  { destruct Ht; subst t; revert Hr; unfold in_range, lo, hi; cbv [signed bits]; norm_pow; lia. }
+  { destruct Ht; subst t; revert Hr; unfold in_range, lo, hi; cbv [signed bits modulus half]; norm_pow; lia. }
   destruct Ht; subst t; unfold Value_convert, F; cbn [tag_of vt vnum vval Z.eqb Pos.eqb TypeUint8 TypeInt8];
     unfold cvt, cvt_z; rewrite Hz; unfold cvt64; rewrite H64; rewrite (wrap_id _ _ Hr); reflexivity.
 Qed.
